@@ -21,6 +21,10 @@ from harness.world import State, HarnessError, Wedged as WorldWedged, world_dige
 
 ck = Check('C17', 'fault_enumeration')
 LINE_CAP = 3_000_000
+# bounded time is judged by the number of lines executed (above); the CPU watchdog of the harness is only the last resort
+# here, and a traced iteration is slow: give it room, or a busy machine turns a legitimate 1.5-million-line pass into a 'hang'
+import harness.world as _hw
+_hw.ITERATION_WATCHDOG_S = max(_hw.ITERATION_WATCHDOG_S, 90.0)
 STRANGER = '10.9.9.9'
 
 
